@@ -68,20 +68,55 @@ def _hist_c15(line):
 
 
 _TRUSTED = [
-    "Coq 8.16.1 kernel (coqc); vm_compute only in Example lemmas; no native_compute",
-    "extraction: ExtrOcamlBasic only (nat, N, Z, positive stay extracted inductives); OCaml 4.13.1",
-    "hand-written OCaml driver ocaml/io/driver.ml (line parsing, chunk lists from the chunk specs, calls of the "
-    "extracted checkers check_c14 / check_c15 / no_panic, of the extracted printers and wf predicates and of the "
-    "extracted reader+parser models; FNV-64 comparison of the printed file)",
+    "Coq 8.16.1 kernel (coqc); vm_compute only in the Example lemmas of C14io.v / C15io.v, in the concrete counterexample "
+    "lemmas F15_refuted / F16_refuted / F17_refuted / polls_unguarded_refuted and in the alphabet-table lemmas of "
+    "IoMatrixProofs.v / IoParseProofs.v; no native_compute",
+    "extraction: ExtrOcamlBasic only (its Extract Inductive directives for bool, option, list, prod, unit, sumbool, "
+    "sumor); no other Extract Inductive, no Extract Constant (nat, N, Z, positive stay extracted inductives); OCaml 4.13.1",
+    "translators (re-run on every check, a source they cannot parse is a broken obligation): translate/io_abc.py -> "
+    "coq/io/GenIoAbc.v (lightmotif/src/abc.rs: K and the from_ascii / as_ascii arms of Dna and Protein; "
+    "jaspar/parse.rs: the symbol array of fn matrix; jaspar/mod.rs and jaspar16/mod.rs Reader::new: the constants of "
+    "unwrap_or(U).saturating_sub(S) and the shape of the record slice; uniprobe/parse.rs matrix_column: line_ending or "
+    "alt((line_ending, eof)) = gen_uniprobe_col_eof) and translate/io_reader.py -> coq/io/GenIoReader.v (statement "
+    "skeleton of Iterator::next of the three mod.rs as code lists, the read_until delimiter, the tag / take_until "
+    "literals of fn header of both JASPAR parse.rs; whether any of the three parse.rs mentions streaming / Incomplete / "
+    "Needed or a nom path outside the complete combinators, and whether the nom::Err::Incomplete arm of error.rs is a "
+    "panic macro; whether the body of CountMatrix::new in lightmotif/src/pwm/mod.rs can fail); pinned by "
+    "C15io.reader_skeleton_is_modelled, io_parsers_are_complete, count_matrix_new_is_total. Trusted: that these "
+    "regular-expression readers read the Rust source the way rustc does",
+    "hand-written OCaml driver ocaml/io/driver.ml (line parsing, chunk lists and fault-event lists from the chunk specs, "
+    "calls of the extracted checkers check_c14 / check_c15 / no_panic / stop_prefix / end_final, of the extracted "
+    "printers (IoPrint, IoPrintU, IoPrintG) and wf predicates and of the extracted reader+parser models incl. the "
+    "polling models IoPoll.*_polls_e; FNV-64 comparison of the printed file; recognise_jaspar16 / recognise_uniprobe for "
+    "the bundled files are hand-written but UNTRUSTED: their output is used only if the extracted printer re-prints it "
+    "to exactly the bytes of the file and the extracted wf predicates accept it, otherwise the case is a DIFF)",
+    "hand-written (non-extracted) PROPFAIL paths left in ocaml/io/driver.ml: (1) `hang-watchdog-expired`: the harness "
+    "reported HANG for the case (a call into the reader did not return within the watchdog) - decided by the harness, "
+    "no checker involved; (2) the labels `panic` / `hang-call-cap-reached` / `model-site=` attached to a rejection by "
+    "the extracted no_panic are hand-written text, the decision is not; (3) a fallback for a `file=` case without "
+    "expected records (bundled-file-not-read-to-END, record-count, differs-from-first-chunking; hand-written around "
+    "check_c15): for JASPAR16 / UniPROBE it is only reached after the recogniser already set a DIFF, and the first "
+    "verdict is kept, so it never decides; it could decide only for a bundled JASPAR (raw) file, and none is generated. "
+    "Every other PROPFAIL (records-differ-from-written, bad-outcome-sequence, panic) is the extracted check_c14 / "
+    "no_panic / check_c15 on the extracted stop_prefix of the observations",
     "Rust harness harness/src/bin/io.rs (record generators and mutators, printers compared through FNV-64 of the file "
-    "with IoPrint.print_file, BufReader capacities and a custom cyclic-chunk BufRead, catch_unwind, call cap and a "
-    "per-case watchdog thread = hang)",
+    "with IoPrint.print_file / IoPrintG.print_file_g, BufReader capacities, a custom cyclic-chunk BufRead and a scripted "
+    "failing BufRead (`ev:` fault scripts), catch_unwind, call cap and a per-case watchdog thread = hang; every record "
+    "returned is also read through AsRef::as_ref and the consuming accessor (into_matrix / CountMatrix::from) and "
+    "compared with matrix())",
     "modelled, not verified: lightmotif-io/src/{jaspar,jaspar16,uniprobe}/{mod,parse}.rs and error.rs as Gallina "
-    "functions (IoJaspar.v, IoUniprobe.v); the nom 7.1.3 combinators used (IoNom.v; nom error kinds not compared); "
-    "std BufRead::read_until / read_line over fill_buf/consume (IoBase.read_until over a list of chunks), "
+    "functions (IoJaspar.v, IoUniprobe.v; over failing streams IoErr.v; the consumer that keeps calling next() "
+    "IoPoll.v); the nom 7.1.3 combinators used (IoNom.v; nom error kinds not compared; IoNom.pres has no Incomplete "
+    "result: nom's `complete` parsers never return it, premise re-checked by io_parsers_are_complete, so the "
+    "unreachable!() of error.rs has no Panic site in the model); "
+    "std BufRead::read_until / read_line over fill_buf/consume (IoBase.read_until over a list of chunks; over event "
+    "lists IoErr.read_until_e / read_line_e: an io::Error returned by read_until comes AFTER the bytes seen so far "
+    "were appended and consumed, read_line keeps them only if the whole line is valid UTF-8, ErrorKind::Interrupted is "
+    "retried - tied by the fault-script cases and by 11 facts of `io selftest` on a scripted failing BufRead), "
     "core::str::from_utf8 (IoBase.utf8_decode), str::trim / char::is_whitespace / is_ascii_whitespace "
     "(`io selftest` compares the tables with std over all scalar values); Vec::capacity() of the JASPAR readers' "
-    "compaction test is an arbitrary oracle (caps) in the model",
+    "compaction test is an arbitrary oracle (caps) in the model (sound: compaction_transparent, "
+    "reader_polls_capacity_independent_jaspar / _jaspar16)",
     "decimal -> f32 (UniPROBE): Rust's str::parse::<f32> is trusted; the harness prints the bits of every float token "
     "and the model takes them as the Section variable parse_f32; FrequencyMatrix::new's row-sum test is replayed "
     "bit-exactly with Flocq binary32 (LMBase.IEEE.F32)",
@@ -134,24 +169,45 @@ C14_SPEC = dict(
     nontrivial=_nontrivial_c14,
     histogram=_hist_c14,
     rule="[JASPAR, JASPAR16, UniPROBE] files printed from random record lists (1..120 records quick, ..300 thorough; "
-         "widths 1..40; counts 0..2^32-1 with leading zeros; JASPAR16/UniPROBE symbol lines in any order and any subset, "
-         "DNA and protein; optional description; LF or CRLF; blanks/tabs layout freedom per record; bytes before the "
-         "first '>' and white space after the last record) by the canonical printers (= IoPrint.print_file, compared "
-         "through a hash of the file), plus the bundled benches/JASPAR2024.pwm (2346 records), tests/*.pfm and "
-         "tests/*.uniprobe; each file read through BufReader capacities 1,2,3,5,17,64,8192 and two custom BufReads "
-         "with cyclic random chunk sizes. Checked: what the generator printed meets the boolean hypotheses of the "
-         "round-trip theorems (extracted wf_jaspar / wf_jaspar16 / wf_uniprobe + wf_prefix / wf_blank_prefix / wf_suffix); under "
-         "every chunking the outcomes are exactly the written records "
-         "(id, description, every cell = the token of its position in the line of its symbol, other columns 0: "
-         "IoPrint.record_of) then END (extracted check_c14, proved sound), and equal the extracted reader+parser model "
-         "run on the same chunk list. Non-trivial: distinct files with >= 2 records, or bundled files.",
+         "widths 1..40, 1 in 25 files a few matrices up to 120 (quick) / 400 (thorough) columns; identifiers up to 600 and "
+         "descriptions up to 1500 characters now and then; counts 0..2^32-1 with leading zeros; JASPAR16/UniPROBE "
+         "symbol lines in any order and any subset, DNA and protein; optional description; LF or CRLF; the one-separator "
+         "blanks/tabs layout of IoPrint.style per record and, for 2 of 5 JASPAR / JASPAR16 records, the general layout "
+         "of IoPrintG (own blanks before every count: right-aligned columns or ragged blanks/tabs; trailing blanks after "
+         "an identifier without description); bytes before the first '>' and white space after the last record) by the "
+         "canonical printers (= IoPrint.print_file / IoPrintG.print_file_g, compared through a hash of the file), plus "
+         "the bundled benches/JASPAR2024.pwm (2346 records), tests/*.pfm and tests/*.uniprobe; each file read through "
+         "BufReader capacities 1,2,3,5,17,64,8192, two custom BufReads with cyclic random chunk sizes and a 10th "
+         "chunking with ErrorKind::Interrupted events only; 2 more requests after End in every case. Checked: what the "
+         "generator printed meets the boolean hypotheses of the round-trip theorems (extracted wf_jaspar / wf_jaspar16 "
+         "/ wf_jaspar_g / wf_jaspar16_g / wf_uniprobe + wf_prefix / wf_blank_prefix / wf_suffix); under every chunking "
+         "the outcomes are exactly the written records (id, description, every cell = the token of its position in the "
+         "line of its symbol, other columns 0: IoPrint.record_of, for the general layout of IoPrintG.src_of_g) then END "
+         "(extracted check_c14, proved sound), and equal the extracted reader+parser model run on the same chunk list "
+         "(polling model IoPoll.*_polls_e in full for the first chunking; for the others the prefix up to END = model "
+         "and every later answer END, by reader_end_is_final_*). Bundled files are recognised as instances of "
+         "print_file_g print_jaspar16_g / print_file print_uniprobe (the extracted printer re-prints the file byte for "
+         "byte, the extracted wf accepts it; a file that is not recognised is a DIFF) and judged by check_c14 against "
+         "the records WRITTEN in them (PROPFAIL records-differ-from-written). Non-trivial: distinct files with >= 2 "
+         "records, or bundled files.",
     trusted_base=_TRUSTED,
     assumptions=[
         "proved (all chunkings, all compaction schedules, any number of records >= 1): reader_roundtrip_jaspar, "
         "reader_roundtrip_jaspar16 for every record list meeting the boolean predicates IoPrint.wf_jaspar / wf_jaspar16 "
         "(identifier: scalar values without ASCII white space or '>'; description: no LF, no '>', no leading/trailing "
-        "white space; counts: digit strings < 2^32, leading zeros allowed; every layout freedom of IoPrint.style; bytes "
-        "without '>' before the first record, ASCII white space after the last)",
+        "white space; counts: digit strings < 2^32, leading zeros allowed; the layout of IoPrint.style: ONE blank "
+        "string between the counts of a record; bytes without '>' before the first record, ASCII white space after the "
+        "last)",
+        "general layout (round 3, review C14 findings 1, 2, 5): reader_roundtrip_jaspar_general / "
+        "reader_roundtrip_jaspar16_general, same conclusion, for IoPrintG.wf_jaspar_g / wf_jaspar16_g: own blank string "
+        "before '[', before every count (first count: any blanks, the others >= 1 blank), before ']' and after it, "
+        ">= 1 blank before a description, any blanks after an identifier without description (wf_hsep_g); the IoPrint "
+        "layout is the special case style_layout_is_special_case_jaspar / _jaspar16; right-aligned real files "
+        "(MA0017.3.pfm, JASPAR2024.pwm) are instances (Example general_layout_instance: first record of JASPAR2024.pwm)",
+        "reader_roundtrip_polls_* (5 theorems): a consumer making n > #records requests sees exactly the written "
+        "records, then End at EVERY further request; reader_polls_chunk_independent_{jaspar,jaspar16,uniprobe}: for ANY "
+        "input (malformed ones too) the outcome of every request of the polling consumer is independent of the chunking "
+        "(error-free streams with the same bytes, IoPollChunk.same_bytes)",
         "UniPROBE round trip (reader_roundtrip_uniprobe) is proved for frequency tokens of nom's decimal float grammar "
         "SIGN? (DIGITS ('.' DIGITS?)? | '.' DIGITS) ([eE] SIGN? DIGITS)? (IoPrintU.wf_dec) on which the float oracle is "
         "defined, names without CR/LF that trim() leaves unchanged and that do not look like a column line, rows passing "
@@ -161,10 +217,18 @@ C14_SPEC = dict(
         "the record list of the JASPAR round-trip theorems is non-empty; the empty list is reader_roundtrip_no_record "
         "(a file of white space only reads as End; a file without any '>' whose last byte is not white space yields "
         "one Err: documented behaviour of Reader::new)",
-        "outside the claimed grammar (documented, each yields an Err, never a wrong record, except the last item): '>' "
-        "inside a JASPAR description, blank lines between JASPAR records, trailing blanks on a JASPAR count line, a last "
-        "JASPAR line without newline; a last UniPROBE column line without newline is dropped (record with that column "
-        "zero if the other columns still pass the row-sum tolerance, then Err)",
+        "outside the claimed grammar (documented; each of the JASPAR items yields an Err, never a wrong record): '>' "
+        "inside a JASPAR description, blank lines between JASPAR records, trailing blanks on a JASPAR (raw) count line, a "
+        "last JASPAR line without newline. A last UniPROBE column line without final newline is ACCEPTED by the code "
+        "(since 2d8f0f6: matrix_column ends with alt((line_ending, eof)), GenIoAbc.gen_uniprobe_col_eof = true; "
+        "modelled, covered by the correspondence check) but outside reader_roundtrip_uniprobe, whose printer ends every "
+        "line with a line ending (review C14 finding 4: not done)",
+        "C14 quantifies over chunkings of a stream that DELIVERS the bytes: no io::Error (ErrorKind::Interrupted is "
+        "invisible: C15io.reader_interrupted_invisible_*). Documented observation O-IO1 (notes/io.md; no violation of "
+        "C14/C15 as stated, no known-findings entry): after a non-Interrupted I/O error in the middle of a JASPAR 2016 "
+        "record the next request slices start..=start+n with n = the bytes of THAT call only; a prefix ending after a "
+        "complete symbol line is a record of the grammar, so a silently TRUNCATED record is returned (pinned: Example "
+        "C15io.polls_truncated_record_after_io_error; model and code agree)",
         "UniPROBE cells: the value of a decimal token is whatever Rust's str::parse::<f32> returns for it (oracle "
         "parse_f32, universally quantified in the theorems)",
     ],
@@ -185,17 +249,42 @@ C15_SPEC = dict(
          "files, 1-3 byte substitutions/deletions/insertions, structural damage (ragged matrices, header-only records, "
          "'>' in the description, duplicated/unknown symbols, overflowing / signed / fractional counts, float edge "
          "tokens nan/inf/infinity/1e/1e400, empty identifiers, missing separators, rows not summing to one, missing "
-         "final newline, blank lines, trailing blanks, stray '>' / invalid UTF-8 before or after), random bytes, fixed "
-         "boundary inputs and the corpus of F15-F17 witnesses; each under 3 chunkings (Cursor, BufReader capacities "
-         "1,2,3,5,17,8192, cyclic random chunk sizes) under catch_unwind, next() polled 3 more times after the first "
-         "error, call cap = len+2 (hang). Checked: no PANIC/CAP in any call and the outcomes up to the first error are "
-         "records then one error or END (extracted no_panic / check_c15, proved sound), and equal outcome by outcome "
-         "(record contents, error kind io/nom/invalid-data) the extracted reader+parser model, including the calls "
-         "after the first error. Non-trivial: distinct non-empty inputs per format.",
+         "final newline, blank lines, trailing blanks, stray '>' / invalid UTF-8 before or after), invalid UTF-8 of 7 "
+         "kinds (stray continuation, truncated 2/3/4-byte forms, overlong, 0xFF, surrogate) inserted / overwriting at "
+         "every offset (thorough; 10 offsets quick) of multi-record files, multi-byte / white-space-like characters "
+         "(NBSP, U+2003, U+85) at line starts, random bytes, fixed boundary inputs, the corpus of F15-F17 witnesses and "
+         "corpus/C15/io_polls.txt; each under 3 chunkings (Cursor, BufReader capacities 1,2,3,5,17,8192, cyclic random "
+         "chunk sizes) plus fault scripts (fill_buf fails with Other/UnexpectedEof/InvalidData/WouldBlock or is "
+         "Interrupted at the k-th slice, k = 0 inside Reader::new, sometimes twice) under catch_unwind; after the first "
+         "outcome that is not a record (error OR End) 3 more requests are made whatever they return (2 after End in "
+         "every C14 case), call cap = len+2 (hang). Checked: no PANIC/CAP in any call and the outcomes up to the first "
+         "error are records then one error or END (extracted no_panic / check_c15, proved sound and complete); the WHOLE "
+         "outcome list (record contents, error kind io/nom/invalid-data, the requests after the first error / End) "
+         "equals outcome by outcome the extracted polling model IoPoll.*_polls_e (fault scripts: over IoErr event "
+         "streams), and after End only End (extracted end_final). Non-trivial: distinct non-empty inputs per format.",
     trusted_base=_TRUSTED,
     assumptions=[
-        "the underlying BufRead returns no I/O error (in-memory streams); read_until/read_line errors other than "
-        "invalid UTF-8 are returned by the code as Err and are not panic sites",
+        "streams are event lists (IoErr.v): non-empty data slices, io::Error, ErrorKind::Interrupted (retried inside "
+        "std's read_until/read_line; reader_interrupted_invisible_*: deleting them changes no outcome); an end of input "
+        "is final (fill_buf returns an empty slice for ever after the last event); reader_polls_total_* (a consumer "
+        "that calls next() again any number of times after an error or End: every request returns Record | Error | "
+        "End), reader_end_is_final_* and reader_total_faults_* hold for every such stream; fault_free_agree_* / "
+        "polls_extend_read_*: on error-free streams, and up to the first non-record, these are the models of the "
+        "reader_total_* / C14 theorems; the JASPAR statements are about the reader as the translator finds it (slice "
+        "guard present - polls_unguarded_refuted is the reader before df3a2dd - and unwrap_or(U).saturating_sub(S) with "
+        "U <= S)",
+        "as coded and pinned by Examples, no C15 violation (every request returns): a JASPAR parse error is sticky "
+        "(`start` only moves on success; polls_sticky_error: every later request returns the same error, End is never "
+        "reached, so `for r in reader { if let Ok(r) = r {..} }` does not end on a malformed file); after an I/O error "
+        "in the middle of a record the next request may return a parse error or, JASPAR 2016, a truncated record "
+        "(observation O-IO1, see the C14 assumptions; polls_io_error_mid_record, polls_truncated_record_after_io_error)",
+        "error.rs `nom::Err::Incomplete(_) => unreachable!()` has no Panic site in the model (IoNom.pres has no "
+        "Incomplete); instead io_parsers_are_complete re-checks on every run that the three parse.rs use no streaming "
+        "parser and no nom path outside the complete combinators (or that the arm no longer panics): a change there "
+        "is a broken obligation, not a modelled panic. CountMatrix::new is taken as never failing "
+        "(count_matrix_new_is_total, same mechanism)",
+        "not modelled: allocation failure (DenseMatrix::new(rows) with rows from the input, Vec / String growth: the "
+        "process aborts) and panics inside nom / std",
         "reader_total_* are stated for every stream with non-empty chunks (wf_stream; mk_stream drops empty chunks of "
         "any chunk list), every capacity oracle and every float oracle; alphabets only need aindex c = Some k -> k < K "
         "(proved for Dna and Protein: alphabets_ok)",
